@@ -220,6 +220,8 @@ def as_num(v):
             return C(v.v)
         return None
     if isinstance(v, Opaque):
+        if v.kind == "str":
+            return None
         return Num.atom(v.text)
     if isinstance(v, Phi):
         a, b = as_num(v.a), as_num(v.b)
@@ -303,16 +305,26 @@ class Env:
 class State:
     def __init__(self, env, heap=None):
         self.env = env
-        self.heap = dict(heap or {})  # (objkey, attr) -> value
+        if isinstance(heap, LazyHeap):
+            self.heap = LazyHeap(heap.ev, dict.copy(heap))
+        else:
+            self.heap = dict(heap or {})  # (objkey, attr) -> value
         self.events = []  # side-effect log: (kind, ...)
         self.havoc = set()
 
     def fork(self):
         memo = {}
-        s = State(self.env.fork(memo), {k: copyval(v, memo) for k, v in self.heap.items()})
+        nh = {k: copyval(v, memo) for k, v in dict.items(self.heap)}
+        s = State(self.env.fork(memo), LazyHeap(self.heap.ev, nh) if isinstance(self.heap, LazyHeap) else nh)
         s.events = list(self.events)
         s.havoc = set(self.havoc)
         return s
+
+
+def _heapcopy(h):
+    if isinstance(h, LazyHeap):
+        return LazyHeap(h.ev, dict.copy(h))
+    return dict(h)
 
 
 def copyval(v, memo):
@@ -337,6 +349,34 @@ def copyval(v, memo):
             return v
         return Phi(v.cond, a, b)
     return v
+
+
+class LazyHeap(dict):
+    """Heap that falls back to the evaluator's module-level heap for objects created by
+    module initialisers (those are evaluated lazily, possibly after the state was made)."""
+
+    def __init__(self, ev, init=None):
+        super().__init__(init or {})
+        self.ev = ev
+
+    def get(self, k, default=None):
+        if dict.__contains__(self, k):
+            return dict.__getitem__(self, k)
+        g = self.ev.gheap
+        if k in g:
+            return g[k]
+        return default
+
+    def __contains__(self, k):
+        return dict.__contains__(self, k) or k in self.ev.gheap
+
+    def __getitem__(self, k):
+        if dict.__contains__(self, k):
+            return dict.__getitem__(self, k)
+        return self.ev.gheap[k]
+
+    def copy_plain(self):
+        return LazyHeap(self.ev, dict(self))
 
 
 class Ret:
@@ -369,15 +409,26 @@ class Evaluator:
         self._modcache = {}
         self.fresh = 0
         self.trace = []
+        self.gheap = {}  # heap cells of objects created by module-level initialisers
+        self.gowned = set()  # ids / texts of objects owned by module-level bindings
+        self.gowner = {}
+        self.in_global_init = 0
         self.nonempty = set()  # texts of opaque sequences assumed non-empty
         self.on_getitem = None  # hook(base value, index value, state) -> value or None
         self.on_loop = None  # hook(stmt, iter value, state) -> True if the rule handled the loop
         self.map_inst = {}
+        self.eqsubst = {}
         self.order = {}  # (keyA, keyB) -> 'lt' | 'eq' | 'gt'   (facts assumed by the rule: ORD enumeration)
         self.facts = {}  # cond key -> bool
 
     def assume_order(self, a, b, rel):
         ka, kb = key(a), key(b)
+        if rel == "eq":
+            na, nb = as_num(a), as_num(b)
+            if na is not None and nb is not None:
+                ats = list(nb.atoms())
+                if len(ats) == 1 and nb.equals(Num.atom(ats[0])):
+                    self.eqsubst[ats[0]] = na
         self.order[(ka, kb)] = rel
         self.order[(kb, ka)] = {"lt": "gt", "gt": "lt", "eq": "eq", "ne": "ne"}[rel]
 
@@ -425,7 +476,7 @@ class Evaluator:
             env = self.func_env(func, args)
         else:
             env = Env(args or {}, self.module_env(module), module, None)
-        return State(env)
+        return State(env, LazyHeap(self))
 
     # -- names ---------------------------------------------------------------
     def resolve_global(self, modname, name, st=None):
@@ -458,17 +509,53 @@ class Evaluator:
             if ck in self._modcache:
                 return self._modcache[ck]
             self._modcache[ck] = Opaque("%s.%s" % (modname, name))
-            st0 = State(Env({}, self.module_env(modname), modname, None))
+            st0 = State(Env({}, self.module_env(modname), modname, None), self.gheap)
+            self.in_global_init += 1
             try:
                 v = self.expr(asg[-1].value, st0)
+                if isinstance(v, (DictV, Seq)):
+                    v.ident = "G:%s.%s" % (modname, name)
+                    self.gowned.add(id(v))
+                self._modcache[ck] = v
+                # later module-level stores  NAME[const] = expr  /  NAME.attr = expr
+                after = False
+                for stn in m.tree.body:
+                    if stn is asg[-1]:
+                        after = True
+                        continue
+                    if after and isinstance(stn, ast.Assign) and len(stn.targets) == 1 and isinstance(stn.targets[0], ast.Subscript) and isinstance(stn.targets[0].value, ast.Name) and stn.targets[0].value.id == name:
+                        self.stmt(stn, st0)
             except SymLimit:
                 v = Opaque("%s.%s" % (modname, name))
-            if isinstance(v, (DictV, Seq)) and v.ident is None:
-                v.ident = "G:%s.%s" % (modname, name)
+            finally:
+                self.in_global_init -= 1
+            self.gheap.update(st0.heap)
+            self._mark_gowned(v, "G:%s.%s" % (modname, name))
             self._modcache[ck] = v
             return v
         # class attribute?  no.  builtin
         return Ext(name)
+
+    def _mark_gowned(self, v, owner, depth=0):
+        if depth > 6:
+            return
+        if isinstance(v, (Seq, DictV)):
+            if id(v) not in self.gowner:
+                self.gowner[id(v)] = owner
+            self.gowned.add(id(v))
+            if isinstance(v, Seq):
+                for i, x in enumerate(v.items):
+                    self._mark_gowned(x, "%s[%d]" % (owner, i), depth + 1)
+            else:
+                for k, x in v.items.items():
+                    self._mark_gowned(x, "%s[%r]" % (owner, k), depth + 1)
+        elif isinstance(v, Opaque) and v.kind == "new":
+            if v.text not in self.gowner:
+                self.gowner[v.text] = owner
+            self.gowned.add(v.text)
+            for (o, a), x in list(self.gheap.items()):
+                if o == v.text:
+                    self._mark_gowned(x, "%s.%s" % (owner, a), depth + 1)
 
     def name(self, node, st):
         v = st.env.lookup(node.id)
@@ -734,7 +821,7 @@ class Evaluator:
             if isinstance(a, Const) and isinstance(b, Const) and (a.v is None or b.v is None or isinstance(a.v, bool)):
                 r = a.v is b.v
                 return Const(r if op == "is" else not r)
-            if isinstance(b, Const) and b.v is None and (isinstance(a, (Num, Seq, DictV, Closure, ClassRef, Template, MapV, StrSym)) or (isinstance(a, Opaque) and a.kind in ("new", "obj", "copy", "deepcopy"))):
+            if isinstance(b, Const) and b.v is None and (isinstance(a, (Num, Seq, DictV, Closure, ClassRef, Template, MapV, StrSym)) or (isinstance(a, Opaque) and a.kind in ("new", "obj", "copy", "deepcopy", "seq"))):
                 return Const(op == "isnot")
             if isinstance(a, Const) and a.v is None and (isinstance(b, (Num, Seq, DictV, Closure, ClassRef, Template)) or (isinstance(b, Opaque) and b.kind in ("new", "obj", "copy", "deepcopy"))):
                 return Const(op == "isnot")
@@ -767,6 +854,13 @@ class Evaluator:
             if op in ("eq", "ne"):
                 return Const(op == "ne")
         na, nb = as_num(a), as_num(b)
+        if self.eqsubst and na is not None and nb is not None and isinstance(a, (Num, Const, Opaque)) and isinstance(b, (Num, Const, Opaque)):
+            na, nb = na.subst(self.eqsubst), nb.subst(self.eqsubst)
+            if na.is_const() and nb.is_const():
+                x, y = na.const_value(), nb.const_value()
+                return Const({"eq": x == y, "ne": x != y, "lt": x < y, "le": x <= y, "gt": x > y, "ge": x >= y}[op])
+            if na.equals(nb):
+                return Const(op in ("eq", "le", "ge"))
         if na is not None and nb is not None and isinstance(a, (Num, Const)) and isinstance(b, (Num, Const)):
             if na.is_const() and nb.is_const():
                 x, y = na.const_value(), nb.const_value()
@@ -868,7 +962,7 @@ class Evaluator:
         return Opaque("(%s %s %s)" % (key(a), op.__name__, key(b)))
 
     def _stringy(self, v):
-        return isinstance(v, Template) or (isinstance(v, Const) and isinstance(v.v, str))
+        return isinstance(v, Template) or (isinstance(v, Const) and isinstance(v.v, str)) or (isinstance(v, Opaque) and v.kind == "str") or isinstance(v, StrSym)
 
     def as_template(self, v):
         if isinstance(v, Template):
@@ -878,6 +972,8 @@ class Evaluator:
         if isinstance(v, Opaque):
             return [("hole", v, "raw")]
         if isinstance(v, Phi):
+            return [("hole", v, "raw")]
+        if isinstance(v, StrSym):
             return [("hole", v, "raw")]
         return None
 
@@ -1208,6 +1304,10 @@ class Evaluator:
             return self.call_bound(fv, args, kwargs, st, node)
         if isinstance(fv, MapV):
             return Opaque("%s(%s)" % (key(fv), ", ".join(key(a) for a in args)))
+        if isinstance(fv, Opaque) and fv.cls is not None:
+            m = self.P.method(fv.cls, "__call__")
+            if m is not None:
+                return self.call_closure(Closure(m, None, selfv=fv), args, kwargs, st, node)
         txt = "%s(%s)" % (key(fv), ", ".join([key(a) for a in args] + ["%s=%s" % (k, key(v)) for k, v in sorted(kwargs.items())]))
         st.events.append(("call-unknown", key(fv), [key(a) for a in args], node))
         return Opaque(txt)
@@ -1312,7 +1412,7 @@ class Evaluator:
             return self.binop(ast.Pow, args[0], args[1])
         if name == "float" and len(args) == 1 and nums[0] is not None:
             return nums[0]
-        if name == "int" and len(args) == 1 and nums[0] is not None and isinstance(args[0], (Num, Const)) and not (isinstance(args[0], Const) and isinstance(args[0].v, str)):
+        if name == "int" and len(args) == 1 and nums[0] is not None and isinstance(args[0], (Num, Const, Opaque)) and not (isinstance(args[0], Const) and isinstance(args[0].v, str)):
             x = nums[0]
             if x.is_const():
                 import math
@@ -1606,7 +1706,7 @@ class Evaluator:
 
     def setattr(self, base, attr, v, st, node=None):
         if isinstance(base, Opaque):
-            st.heap = dict(st.heap)
+            st.heap = _heapcopy(st.heap)
             st.heap[(base.text, attr)] = v
             st.events.append(("setattr", base.text, attr, v, node))
         elif isinstance(base, Phi):
@@ -1626,7 +1726,7 @@ class Evaluator:
             st.events.append(("setitem", base.ident or key(base), repr(kk), v, node))
             return
         if isinstance(base, Opaque):
-            st.heap = dict(st.heap)
+            st.heap = _heapcopy(st.heap)
             st.heap[(base.text, "[%s]" % key(idx))] = v
         st.events.append(("setitem", key(base) if not isinstance(base, (Seq, DictV)) else (base.ident or key(base)), key(idx), v, node))
 
@@ -1687,7 +1787,7 @@ class Evaluator:
             if b is None:
                 b = Opaque("%s.%s" % k)
             heap[k] = mkphi(c, a, b)
-        st.heap = heap
+        st.heap = LazyHeap(st.heap.ev, heap) if isinstance(st.heap, LazyHeap) else heap
         n0 = len(st.events)
         st.events.extend([("in-branch", c, True, ev) for ev in s1.events[n0:]] + [("in-branch", c, False, ev) for ev in s2.events[n0:]])
         st.havoc = s1.havoc | s2.havoc
@@ -1813,7 +1913,7 @@ class Evaluator:
         for k, v in s2.heap.items():
             old = st.heap.get(k)
             if old is not v and (old is None or key(old) != key(v)):
-                st.heap = dict(st.heap)
+                st.heap = _heapcopy(st.heap)
                 if el is not None and isinstance(el, Opaque) and k[0].startswith(el.text):
                     st.heap[k] = v
                 else:
@@ -1874,7 +1974,7 @@ class Evaluator:
         for k, v in s2.heap.items():
             old = st.heap.get(k)
             if old is not v and (old is None or key(old) != key(v)):
-                st.heap = dict(st.heap)
+                st.heap = _heapcopy(st.heap)
                 st.heap[k] = Opaque("%s.%s@after-loop%d" % (k[0], k[1], line))
         return None
 
